@@ -219,11 +219,24 @@ def run_property(prop, tier, repo_root):
     if getattr(mod, "VALIDATE_LAYOUT_PRIMS", False):
         from . import validate
         pv = validate.run(seed=int(os.environ.get("VERIF_SEED", "0") or 0), n_each=3 if tier == "quick" else 40)
+    av = None
+    if getattr(mod, "VALIDATE_ALGEBRAIC_PRIMS", False):
+        from . import validate_ops
+        try:
+            av = validate_ops.run(seed=int(os.environ.get("VERIF_SEED", "0") or 0), n_each=1 if tier == "quick" else 12)
+        except Exception as e:  # noqa: BLE001
+            av = {"samples": 0, "ops": 0, "failures": [f"validation harness crashed: {type(e).__name__}: {e}"], "skipped": [], "table": 0}
     res = _result(obligations, functions, trusted, mod, checks, t0)
     res["functions_symbolically_executed"] = sorted(executed)
+    if av is not None:
+        res.setdefault("primitive_validation", {})["algebraic_contracts_sampled_against_real_torch"] = {
+            "samples": av["samples"], "expressions_agreeing": av["ops"], "table": av.get("table"), "skipped": av["skipped"][:5],
+            "disagreements": av["failures"][:5]}
+        if av["failures"]:
+            res["error"] = "broken assumption: an algebraic primitive contract (or its standard interpretation) disagrees with the real library: " + av["failures"][0][:300]
     if pv is not None:
-        res["primitive_validation"] = {"layout_contracts_sampled_against_real_torch": pv["samples"], "operations": pv["ops"],
-                                       "disagreements": pv["failures"][:5]}
+        res.setdefault("primitive_validation", {}).update({"layout_contracts_sampled_against_real_torch": pv["samples"], "operations": pv["ops"],
+                                                           "disagreements": pv["failures"][:5]})
         if pv["failures"]:
             res["error"] = "broken assumption: a layout primitive contract disagrees with the real library: " + pv["failures"][0][:300]
     return res
